@@ -195,7 +195,7 @@ RandomIdx(n) == [j \in 1..n |-> Pick(TokIdx)]
 (* (c) expression soup: every sequence of n tokens of a small expression alphabet (literal, name, unary and binary
        operators, parentheses, the line break) appended to `let y = x`: the operator/operand/line-break combinations the
        Pratt parser has to decide on, exhaustively up to length n *)
-ExprAlphabet == << "1", "x", "+", "-", "\n", "(", ")", "not", "..", "*" >>
+ExprAlphabet == << "1", "x", "+", "-", "\n", "(", "not", ".." >>
 ExprIdx == 1..Len(ExprAlphabet)
 ESoupCase(ix) ==
   [id |-> "esoup" \o IdxStr(ix), gen |-> "esoup", prog |-> "", p |-> 0, op |-> "esoup", i |-> Len(ix), a |-> 0,
